@@ -3,6 +3,7 @@
 //! (a) exhibits a concrete failing input for an obligation the verifier failed to discharge, and
 //! (b) checks, on every run, the stated assumptions about external code (logos) on enumerated inputs.
 mod lexer;
+mod numeric;
 mod json;
 
 fn main() {
@@ -13,6 +14,8 @@ fn main() {
         | "lexer-a1" => lexer::assumption_a1(rest),
         | "lexer-witness" => lexer::witness(rest),
         | "lexer-replay" => lexer::replay(rest),
+        | "numeric-witness" => numeric::witness(rest),
+        | "numeric-replay" => numeric::replay(rest),
         | _ => {
             eprintln!("usage: vf-replay <lexer-a1|lexer-witness|lexer-replay> ...");
             2
